@@ -47,6 +47,7 @@ def fixed_specs():
     # one inline group = 43 disk blocks (a contiguous range longer than two blocks per pool worker),
     # 43 parallel range reads per z-slice
     add(route='numpy', shape=[5, 170, 20], bits=8, blockshape=[4, 4, -1])
+    add(route='numpy', shape=[7, 6, 40], bits=2, blockshape=[4, 4, -1], hdrs=True)   # five footer arrays
     # line numbers that are negative and cross zero (-3 .. 2 and -2 .. 4)
     add(route='segy', shape=[6, 7, 20], bits=4, blockshape=[4, 4, -1], fmt=1, il0=-3, xl0=-2, il_step=1, xl_step=1,
         detection='heuristic')
